@@ -277,6 +277,17 @@ def run(ctx):
                 ctx.disagree({"fn": "hit", "k": k}, str(Fraction(k + 1, k + 2)), out[k])
             if Fraction(out[len(ks) + k]) != Fraction(2 * k + 1, 2):
                 ctx.disagree({"fn": "lam", "k": k}, str(Fraction(2 * k + 1, 2)), out[len(ks) + k])
+        # the walk's own finite-horizon law (reachBy) against the closed form: 0 ≤ gap ≤ ρ^t (k+2)
+        # (theorems walk_law_below_closed_form / walk_law_gap), and the walk simulated by the plug-in's rule
+        T = 300
+        got = ctx.driver([f"reach {k + 2} {T} {k + 1}" for k in range(5)])
+        for k in range(5):
+            ctx.count(1, branch="walk-law")
+            N = k + 2
+            gap = Fraction(k + 1, k + 2) - Fraction(got[k])
+            bound = Fraction(N * N, N * N + 4) ** T * N
+            if not (0 <= gap <= bound and gap < Fraction(1, 10 ** 9)):
+                ctx.disagree({"fn": "reachBy", "k": k, "t": T}, f"gap {float(gap):.3e}", f"bound {float(bound):.3e}")
         # estimator on hand-made rows incl. degenerate ones (no weight, all cross, none crosses)
         tiny = [
             ("estimate 3 2 5 3/2 0 1/2 1/3 0 1 2 7 5/2 0 1/4 2/3 0 1 1", "3/4 3/4 1 2/3 5/6 4/5"),
